@@ -11,7 +11,7 @@ from .c06 import build_loss, loss_patches, last_flow, STATES, PARAMS
 from .c07 import _first_flow_of_call, NS, NP
 
 
-def jtj_unit(sel, tp, n, weighted, ts_sel=None, pre_iv=False):
+def jtj_unit(sel, tp, n, weighted, ts_sel=None, pre_iv=False, full=False):
     """pre_iv: the object has target_state and an initial-value evaluation (costIV elsewhere) comes first; it moves the
     object's initial state, and jtj must then describe the residuals of the cost the object computes NOW"""
     def h(c):
@@ -31,7 +31,7 @@ def jtj_unit(sel, tp, n, weighted, ts_sel=None, pre_iv=False):
                 x0_used = list(L.x0)
                 pre(L, x0_used, True)
                 n_before = len(book.integrators)
-                J = L.obj.jtj(L.theta_arg)
+                J = L.obj.jtj(L.theta_arg, full_output=True)[0] if full else L.obj.jtj(L.theta_arg)
                 fl = None
                 for ig in book.integrators[n_before:]:
                     y0 = list(np.asarray(ig._y0, dtype=object).ravel())
@@ -50,7 +50,7 @@ def jtj_unit(sel, tp, n, weighted, ts_sel=None, pre_iv=False):
             L = build_loss(c, "Square", sel, tp, ts_sel, n, weighted, "scalar")
             x0_used = [float(v) for v in L.x0]
             pre(L, x0_used, False)
-            J = L.obj.jtj(L.theta_arg)
+            J = L.obj.jtj(L.theta_arg, full_output=True)[0] if full else L.obj.jtj(L.theta_arg)
             b_, g_ = float(L.bound["beta"]), float(L.bound["gamma"])
 
             def aug(t_, z):
@@ -92,7 +92,7 @@ def jtj_unit(sel, tp, n, weighted, ts_sel=None, pre_iv=False):
             c.prove(quad == zsum(pj * pj for pj in projs), "v' jtj v == sum of squares of the weighted sensitivity projections")
             qs = [c.real("proj%d" % k) for k in range(len(projs))]
             ok = c.prove(zsum(x_ * x_ for x_ in qs) >= 0, "a sum of squares is non-negative, hence v' jtj v >= 0 for every v (positive semi-definite)")
-    return Unit("C20.jtj[states=%s,target=%s,n=%d,w=%s%s]" % ("+".join(sel), "all" if tp is None else "+".join(tp), n, weighted, ",ts=%s,after_costIV" % "+".join(ts_sel) if pre_iv else ""), h,
+    return Unit("C20.jtj[states=%s,target=%s,n=%d,w=%s%s]" % ("+".join(sel), "all" if tp is None else "+".join(tp), n, weighted, (",ts=%s,after_costIV" % "+".join(ts_sel) if pre_iv else "") + (",full_output" if full else "")), h,
                 bounds={"times": n, "observed_states": list(sel), "target_param": tp, "weights": "symbolic" if weighted else "unit"},
                 program={"jtj": list(sel), "tp": tp}, max_paths=50, verdict_timeout_ms=30000)
 
@@ -246,7 +246,9 @@ class C20(Check):
     def units(self, tier, seed):
         us = [jtj_unit(("S",), None, 2, False), jtj_unit(("J", "S"), ("gamma", "beta"), 2, True), jtj_unit(("R", "J"), ("gamma",), 2, False),
               jtj_unit(("R",), None, 2, True), jtj_unit(("R", "J"), None, 3, "per_state"), jtj_unit(("J", "S"), ("beta",), 3, "scalar"),
-              jtj_unit(("J", "R"), None, 2, False, ts_sel=("J",), pre_iv=True)]
+              jtj_unit(("J", "R"), None, 2, False, ts_sel=("J",), pre_iv=True),
+              # the full_output form (the one the confidence-interval code calls), every weight form
+              jtj_unit(("J", "S"), ("gamma", "beta"), 2, True, full=True), jtj_unit(("R",), None, 2, "scalar", full=True), jtj_unit(("S",), None, 2, False, full=True)]
         names = ["xy_2s1e", "two_three", "ode_mixed", "bd_1s2e"] if tier == "quick" else \
             ["xy_2s1e", "two_three", "ode_mixed", "bd_1s2e", "sir", "saturating", "decay_1s1e", "exponential", "birth_by_origin"]
         for nm in names:
